@@ -54,7 +54,12 @@ func runC04(r *run) {
 			emit(caseT{"history", args})
 		}
 	}
-	driveCases(r, func(emit func(caseT)) { gen(emit); genC04Errors(rg, emit); genC04Excluded(rg, emit) }, execC04)
+	driveCases(r, func(emit func(caseT)) {
+		gen(emit)
+		genC04Errors(rg, emit)
+		genC04Excluded(rg, emit)
+		genC04Tags(rg, emit)
+	}, execC04)
 	r.finish(nil)
 }
 
@@ -276,6 +281,50 @@ func execC04(r *run, c caseT) {
 			d2 := map[string]any{"template": src, "options": w.opts(), "observed": obs, "fresh": fo.obs}
 			r.reject(id, fmt.Sprintf("execution %d differs from the first execution of a freshly compiled template", i+1), d2)
 			return
+		}
+	}
+}
+
+// a tag registered through the public API that keeps per-rendering state wherever the execution
+// context offers a place for it, and prints what it found there: the compiled template must not
+// be that place
+func init() {
+	_ = pongo2.RegisterTag("verifstatetag", func(doc *pongo2.Parser, start *pongo2.Token, args *pongo2.Parser) (pongo2.INodeTag, *pongo2.Error) {
+		return &stateNode{}, nil
+	})
+}
+
+type stateNode struct{ runs int64 }
+
+func (n *stateNode) Execute(ctx *pongo2.ExecutionContext, w pongo2.TemplateWriter) *pongo2.Error {
+	shared := "-"
+	if ctx.Shared != nil {
+		c, _ := ctx.Shared["verifstate"].(int)
+		ctx.Shared["verifstate"] = c + 1
+		shared = fmt.Sprint(c)
+	}
+	p, _ := ctx.Private["verifstate"].(int)
+	ctx.Private["verifstate"] = p + 1
+	_, hasPub := ctx.Public["verifstate"]
+	_, _ = w.WriteString(fmt.Sprintf("[%s,%d,%v]", shared, p, hasPub))
+	return nil
+}
+
+func genC04Tags(rg *rng, emit func(caseT)) {
+	for i, src := range []string{"{% verifstatetag %}", "{% verifstatetag %}{% verifstatetag %}", "{% for q in nums %}{% verifstatetag %}{% endfor %}{% verifstatetag %}",
+		"{% if b1 %}{% verifstatetag %}{% endif %}{% with z=1 %}{% verifstatetag %}{% endwith %}", "{% macro m() %}{% verifstatetag %}{% endmacro %}{{ m() }}{{ m() }}{% verifstatetag %}",
+		"{% block b %}{% verifstatetag %}{% endblock %}{% verifstatetag %}", "{% filter upper %}{% verifstatetag %}{% endfilter %}", "{% spaceless %} {% verifstatetag %} {% endspaceless %}"} {
+		g := newProgGen(rg.fork(uint64(9100 + i)))
+		a, b := g.context(0), g.context(1)
+		hist := []gctx{a, a, b, a, b, b}
+		parts := make([]string, len(hist))
+		for j, h := range hist {
+			parts[j] = h.descr()
+		}
+		for pad := 0; pad < 5; pad++ { // the length of the source selects the entry points
+			args := (&world{}).args(src+strings.Repeat(" ", pad), nil)
+			args[1] = strings.Join(parts, "~")
+			emit(caseT{"gohistory", args})
 		}
 	}
 }
